@@ -1285,15 +1285,25 @@ class CausalGraph(HasIdentifier, HasMetadata, CanDictSerialize, CanDictDeseriali
                 'or provide a constructed `Edge` object using the `edge` parameter.'
             )
 
-        source_node, destination_node = self._prepare_nodes(source, destination)
+        # keep track of the nodes which do not exist yet, as they will be added implicitly
+        implicit_nodes = [node for node in (source, destination) if not self.node_exists(node)]
 
-        edge = self._EdgeCls(source_node, destination_node, edge_type=edge_type)
+        try:
+            source_node, destination_node = self._prepare_nodes(source, destination)
 
-        # Add any meta
-        if meta is not None:
-            edge.meta = meta
+            edge = self._EdgeCls(source_node, destination_node, edge_type=edge_type)
 
-        self._set_edge(edge=edge, validate=validate)
+            # Add any meta
+            if meta is not None:
+                edge.meta = meta
+
+            self._set_edge(edge=edge, validate=validate)
+        except Exception:
+            # restore the graph to its original state by removing any implicitly added nodes
+            for node in implicit_nodes:
+                if self.node_exists(node):
+                    self.delete_node(node)
+            raise
         return edge
 
     @reset_cached_attributes_decorator
